@@ -2,6 +2,7 @@
 import functools
 import hashlib
 import io
+import signal
 
 from vmon.probe import shard_rng, observe
 from vmon.refs import merkle as RM, pmt as RP, blockser as RB, txser as RT, p2p as P2P
@@ -58,6 +59,12 @@ ASSUMPTIONS = [
     "for); the packer refusing the object returned by the library's own as_blockheader() is recorded as finding F14-a; bytes "
     "that differ from the reference encoding are reported and not fed to the library's parser",
     "the object returned by as_blockheader() is independent of the block: set_nonce on one does not change the other",
+    "id() and as_hex() are hexadecimal text of the demanded bytes; the letter case of the digits is not demanded",
+    "LTC blocks are generated in the Bitcoin wire format (legacy and segwit transactions); Litecoin's MWEB transaction flag (0x08) "
+    "and the MWEB block extension have no reference here and are outside the quantified domain",
+    "every message.parse call runs under a per-call CPU-time alarm (20 CPU-seconds, user time of the worker, for inputs of at "
+    "most ~100 kB that cost milliseconds): a call that does not return is neither 'accepted' nor 'rejected' and is reported as "
+    "*.does_not_return; after the third such call a shard ends its workload early",
 ]
 EXPLANATION = ("every block/header/merkle/merkleblock call on the real library is compared with the reference; honest proofs must be "
                "accepted with exactly the matched ids in order, listed corruptions must raise")
@@ -122,12 +129,67 @@ def _hdr_fields(b):
             "bits": b.difficulty, "nonce": b.nonce}
 
 
+def _hex_is(got, want_hex):
+    """hex text names these bytes (the statement fixes the value, not the letter case of its display)"""
+    return isinstance(got, str) and got.lower() == want_hex
+
+
+class _CallBudget(BaseException):
+    """raised by the CPU-time alarm inside a library call (BaseException: not swallowed by `except Exception`)"""
+
+
+class _AbortShard(Exception):
+    pass
+
+
+# a library call on a few hundred bytes .. 100 kB of wire data costs milliseconds of CPU. A parser that was led astray (e.g. reads
+# a count out of the wrong bytes and then loops 2**32 times over an exhausted stream) must not keep the shard busy until the
+# watchdog: the call runs under a CPU-time alarm (ITIMER_VIRTUAL: user CPU of this process, independent of machine load),
+# 'did not return' is reported, and the shard moves on. After the first such event the limit drops; after the third the
+# shard's workload ends (the verdict is already 'violated').
+CALL_CPU_LIMITS = (20.0, 3.0, 3.0)
+_BUDGET = {"hits": 0, "installed": False}
+
+
+def _on_alarm(signum, frame):
+    raise _CallBudget()
+
+
+def bounded(fn, *a, **kw):
+    """observe(fn, ...) under the CPU-time alarm -> ('ok', v) / ('exc', e) / ('budget', cpu seconds allowed)"""
+    if _BUDGET["hits"] >= len(CALL_CPU_LIMITS):
+        raise _AbortShard("%d library calls did not return within their CPU budget" % _BUDGET["hits"])
+    if not _BUDGET["installed"]:
+        try:
+            signal.signal(signal.SIGVTALRM, _on_alarm)
+        except ValueError:                           # not the main thread: no alarm available, plain call
+            return observe(fn, *a, **kw)
+        _BUDGET["installed"] = True
+    limit = CALL_CPU_LIMITS[_BUDGET["hits"]]
+    try:
+        signal.setitimer(signal.ITIMER_VIRTUAL, limit)
+        try:
+            return observe(fn, *a, **kw)
+        finally:
+            signal.setitimer(signal.ITIMER_VIRTUAL, 0)
+    except _CallBudget:
+        signal.setitimer(signal.ITIMER_VIRTUAL, 0)
+        _BUDGET["hits"] += 1
+        return ("budget", limit)
+
+
+def _no_return(rec, mech, case, limit, expected):
+    rec.ev("call_did_not_return")
+    rec.violation(mech, case, "no result within %g CPU-seconds" % limit, expected)
+
+
 def judge_header(net, data, rec):
     """80 header bytes: parse_as_header -> fields, stream_header/as_bin identity, hash/id."""
     Block = _net(net).block
     want = RB.parse_header(data)
     case = {"kind": "header", "net": net, "data": data}
     rec.case(("header", net, data))
+    rec.ev("cfg:%s:header" % net)
     rec.ev("Block.parse_as_header")
     f = io.BytesIO(data)
     st, b = observe(Block.parse_as_header, f)
@@ -168,7 +230,7 @@ def _judge_id(b, data, case, rec):
         rec.violation("block.hash_mismatch", case, h, want_hash)
     rec.ev("Block.id")
     st, i = observe(b.id)
-    if st != "ok" or i != want_hash[::-1].hex():
+    if st != "ok" or not _hex_is(i, want_hash[::-1].hex()):
         rec.violation("block.id_mismatch", case, i, want_hash[::-1].hex())
 
 
@@ -185,6 +247,7 @@ def judge_block(net, data, rec, sample=False, pre=None):
         case["pre"] = list(pre)
         _pre_calls([RT.txid_bytes(t) for t in txs], pre, case, rec)
     rec.case(("block", net, data, tuple(pre or ())), nontrivial=len(txs) > 1)
+    rec.ev("cfg:%s:block" % net)
     rec.ev("Block.from_bin")
     st, b = observe(Block.from_bin, data)
     if st != "ok":
@@ -229,8 +292,10 @@ def judge_block(net, data, rec, sample=False, pre=None):
             rec.violation("block.roundtrip_mismatch", case, out, data)
     # the same bytes arriving as a 'block' message
     rec.ev("message.parse(block)")
-    st, d = observe(N.message.parse, "block", data)
-    if st != "ok":
+    st, d = bounded(N.message.parse, "block", data)
+    if st == "budget":
+        _no_return(rec, "block.message_parse_does_not_return", case, d, "block")
+    elif st != "ok":
         rec.violation("block.parse_rejects_valid", case, d, "block")
     else:
         st, out = observe(d["block"].as_bin)
@@ -266,7 +331,7 @@ def judge_block(net, data, rec, sample=False, pre=None):
     st, e = observe(b.set_nonce, new_nonce)
     want_id = RB.block_id(dict(header, nonce=new_nonce))
     st2, i = observe(b.id)
-    if st != "ok" or st2 != "ok" or i != want_id:
+    if st != "ok" or st2 != "ok" or not _hex_is(i, want_id):
         rec.violation("block.id_stale_after_set_nonce", case, i, want_id)
     if sample:
         rec.sample({"op": "Block.from_bin/as_bin/id", "net": net, "n_txs": len(txs), "id": RB.block_id(header), "bytes": len(data)})
@@ -285,6 +350,8 @@ def judge_badroot(net, data, rec, cls="altered", pre=None):
         case["pre"] = list(pre)
         _pre_calls([RT.txid_bytes(t) for t in txs], pre, case, rec)
     rec.case(("badroot", net, data, tuple(pre or ())))
+    rec.ev("cfg:%s:badroot" % net)
+    rec.ev("badroot:" + cls)
     rec.ev("BadMerkleRoot:Block.from_bin")
     st, b = observe(Block.from_bin, data)
     if st == "ok":
@@ -297,13 +364,16 @@ def judge_badroot(net, data, rec, cls="altered", pre=None):
     st, b = observe(Block.parse, io.BytesIO(data))
     if st == "ok":
         rec.violation("block.accepts_bad_merkle_root.parse", case, "accepted", "BadMerkleRootError")
+    rec.ev("BadMerkleRoot:Block.parse(include_offsets)")
     st, b = observe(Block.parse, io.BytesIO(data), include_offsets=True)
     if st == "ok":
         rec.violation("block.accepts_bad_merkle_root.parse_include_offsets", case, "accepted", "BadMerkleRootError")
     # the same bytes arriving as a 'block' message
     rec.ev("BadMerkleRoot:message.parse(block)")
-    st, b = observe(N.message.parse, "block", data)
-    if st == "ok":
+    st, b = bounded(N.message.parse, "block", data)
+    if st == "budget":
+        _no_return(rec, "block.message_parse_does_not_return", case, b, "BadMerkleRootError")
+    elif st == "ok":
         rec.violation("block.accepts_bad_merkle_root.message_parse", case, "accepted", "BadMerkleRootError")
     # unchecked parse is allowed to succeed; the explicit check and set_txs must then refuse
     st, b = observe(Block.parse, io.BytesIO(data), check_merkle_hash=False)
@@ -353,7 +423,11 @@ def judge_proof(net, data, cls, want, rec):
     rec.case(("proof", net, data), nontrivial=(cls != "honest" or bool(want)))
     rec.ev("message.parse(merkleblock)")
     rec.ev("proof:" + cls)
-    st, d = observe(N.message.parse, "merkleblock", data)
+    rec.ev("cfg:%s:proof_%s" % (net, "honest" if cls == "honest" else "corrupted" if cls in MUST_REJECT else "undecided"))
+    st, d = bounded(N.message.parse, "merkleblock", data)
+    if st == "budget":
+        _no_return(rec, "pmt.parse_does_not_return", case, d, "accepted with the matched ids" if cls == "honest" else "a decision")
+        return
     if cls == "honest":
         if st != "ok":
             rec.violation("pmt.rejects_honest_proof", case, d, want)
@@ -397,6 +471,8 @@ def proof_suite(net, txids, matches, rng, rec, bits_per_hash=1, cap=8, sample=Fa
     used = RP.bits_used_by_honest(txids, matches)
     want = [txids[i] for i in sorted(matches)]
     judge_proof(net, proof_msg(header, total, hashes, fb), "honest", want, rec)
+    for shape in _tree_shape(n, matches):
+        rec.ev(shape)
     if sample:
         rec.sample({"op": "merkleblock proof", "net": net, "n": n, "matches": sorted(matches), "hashes": len(hashes), "flags": fb,
                     "corruptions": "hash bits, append/insert/remove, padding bits, extra flag byte, root"})
@@ -436,6 +512,25 @@ def proof_suite(net, txids, matches, rng, rec, bits_per_hash=1, cap=8, sample=Fa
     # the honest proof again, after its refused corruptions went through the same parser
     rec.ev("proof:honest_again")
     judge_proof(net, proof_msg(header, total, hashes, fb), "honest", want, rec)
+
+
+def _tree_shape(n, matches):
+    """evidence classes of one (tree, match subset): which regions of the quantifier this case lies in"""
+    out = []
+    odd = [h for h in range(RM.height(n)) if RM.width(n, h) % 2 == 1 and RM.width(n, h) > 1]
+    if n > 1 and n & (n - 1) == 0:
+        out.append("tree:power_of_two")
+    if n % 2 == 1 and n > 1:
+        out.append("tree:odd_leaf_count")
+    if len(odd) >= 2:
+        out.append("tree:two_or_more_odd_levels")
+    if any(h >= 2 for h in odd):
+        out.append("tree:odd_level_at_height_2_or_more")
+    m = set(matches)
+    out.append("subset:none" if not m else "subset:all" if len(m) == n else "subset:proper")
+    if odd and (n - 1) in m:
+        out.append("subset:matches_duplicated_right_edge")
+    return out
 
 
 def special_subsets(n, rng, count):
@@ -949,14 +1044,14 @@ def judge_id_history(net, data, ops, rec):
         elif arg == "id":
             rec.ev("Block.id")
             st, i = observe(b.id)
-            if st != "ok" or i != want_hash[::-1].hex():
+            if st != "ok" or not _hex_is(i, want_hash[::-1].hex()):
                 bad = (i, want_hash[::-1].hex())
         elif arg == "blockheader_id":
             st, hb = observe(b.as_blockheader)
             if st == "ok":
                 rec.ev("Block.as_blockheader.id")
                 st, i = observe(hb.id)
-                if st != "ok" or i != want_hash[::-1].hex():
+                if st != "ok" or not _hex_is(i, want_hash[::-1].hex()):
                     bad = (i, want_hash[::-1].hex())
         elif arg == "str":
             observe(str, b)                      # stimulus only (reads the id)
@@ -1089,7 +1184,7 @@ def _make_object(N, kind, data, header, proof):
         if kind == "msg_block":
             return N.message.parse("block", data)["block"]
         raise ValueError(kind)
-    return observe(build)
+    return bounded(build)
 
 
 class _Consumed(Exception):
@@ -1129,6 +1224,7 @@ def judge_kinds(net, blocks, matches, plan, rec):
     N = _net(net)
     case = {"kind": "kinds", "net": net, "blocks": list(blocks), "matches": [list(m) for m in matches], "plan": plan}
     rec.case(("kinds", net, tuple(blocks), repr(matches), repr(plan)))
+    rec.ev("cfg:%s:kinds" % net)
     info = []
     for data, m in zip(blocks, matches):
         header, txs, used = RB.parse_block(data)
@@ -1145,6 +1241,10 @@ def judge_kinds(net, blocks, matches, plan, rec):
         rec.ev("kind:" + kind)
         st, obj = _make_object(N, kind, I["data"], I["header"], I["proof_msg"])
         c = dict(case, object=oi)
+        if st == "budget":
+            _no_return(rec, "kinds.object_not_obtained.does_not_return", c, obj, kind)
+            live.append(None)
+            continue
         if st != "ok":
             if isinstance(obj, _Consumed):
                 rec.violation("header.parse_consumed_wrong_length", c, obj.args[0], 80)
@@ -1180,8 +1280,10 @@ def judge_kinds(net, blocks, matches, plan, rec):
             rec.violation("pack.headers_not_wire_format", c, out, ref)
         else:
             rec.ev("message.parse(headers)")
-            st, d = observe(N.message.parse, "headers", out)
-            if st != "ok":
+            st, d = bounded(N.message.parse, "headers", out)
+            if st == "budget":
+                _no_return(rec, "headers.parse_does_not_return", c, d, "headers")
+            elif st != "ok":
                 rec.violation("headers.parse_raises", c, d, "headers")
             else:
                 got = [(_hdr_fields(h), k) for h, k in d["headers"]]
@@ -1230,7 +1332,7 @@ def _object_op(N, obj, cur, has_txs, kind, I, op, c, salt, rec):
     elif op == "as_hex":
         rec.ev("Block.as_hex")
         st, out = observe(obj.as_hex)
-        if st != "ok" or out != (hdr + body).hex():
+        if st != "ok" or not _hex_is(out, (hdr + body).hex()):
             rec.violation("kinds.as_hex_mismatch." + cls, c, out, (hdr + body).hex())
             return False
     elif op == "hash":
@@ -1242,7 +1344,7 @@ def _object_op(N, obj, cur, has_txs, kind, I, op, c, salt, rec):
     elif op == "id":
         rec.ev("Block.id")
         st, i = observe(obj.id)
-        if st != "ok" or i != want_hash[::-1].hex():
+        if st != "ok" or not _hex_is(i, want_hash[::-1].hex()):
             rec.violation("kinds.id_mismatch." + cls, c, i, want_hash[::-1].hex())
             return False
     elif op == "previous_block_id":
@@ -1352,7 +1454,10 @@ def _pack_op(N, obj, cur, has_txs, kind, I, op, c, rec):
         return False                                 # (bytes that are not the wire format are not fed to the parser: undefined cost)
     name = op[5:]
     rec.ev("message.parse(%s)" % name)
-    st, d = observe(N.message.parse, name, out)
+    st, d = bounded(N.message.parse, name, out)
+    if st == "budget":
+        _no_return(rec, "pack.%s_parse_does_not_return" % name, c, d, "parsed message")
+        return False
     if name == "merkleblock":
         rec.ev("proof:honest")
         if st != "ok":
@@ -1406,37 +1511,67 @@ def run_kinds(spec, rec):
     rec.sample({"op": "object kinds x entry points", "kinds": sorted(OBJECT_KINDS), "entry_points": list(OBJECT_OPS)})
 
 
+BADROOT_CLASSES = ("value_bit", "lock_time_bit", "script_changed", "prevout_changed", "version_changed", "root_bit", "root_reversed",
+                   "swapped", "swapped_last_two", "dropped_last", "dropped_first", "first_duplicated", "reversed", "appended_new",
+                   "last_duplicated")
+
+
 def run_shard(spec, rec):
+    try:
+        _run_shard(spec, rec)
+    except _AbortShard as e:
+        rec.note("shard workload ended early: %s (each is reported as a violation)" % e)
+
+
+def _run_shard(spec, rec):
     kind = spec["kind"]
     if kind == "kinds":
         rec.require(*(["kind:" + k for k in OBJECT_KINDS] + ["message.pack(merkleblock)", "message.pack(headers)", "message.pack(block)",
-                      "pack:full", "pack:header_only", "Block.stream", "Block.stream_header", "Block.as_blockheader", "proof:honest"]))
+                      "pack:full", "pack:header_only", "Block.stream", "Block.stream_header", "Block.as_blockheader", "proof:honest",
+                      "Block.as_hex", "Block.as_bin", "Block.hash", "Block.id", "Block.set_nonce", "message.parse(headers)",
+                      "message.parse(block)", "cfg:%s:kinds" % spec["net"]]))
         run_kinds(spec, rec)
     elif kind == "blocks":
         rec.require("Block.from_bin", "Block.as_bin", "Block.id", "Block.hash", "Block.parse_as_header", "Block.stream_header",
-                    "BadMerkleRoot:Block.from_bin", "BadMerkleRootError raised", "Block.check_merkle_hash", "Block.set_txs", "merkle")
+                    "BadMerkleRoot:Block.from_bin", "BadMerkleRootError raised", "Block.check_merkle_hash", "Block.set_txs", "merkle",
+                    "Block.parse", "Block.parse(include_offsets)", "message.parse(block)", "Block.set_nonce",
+                    "BadMerkleRoot:Block.parse", "BadMerkleRoot:Block.parse(include_offsets)", "BadMerkleRoot:message.parse(block)",
+                    "BadMerkleRoot:Block.check_merkle_hash", "BadMerkleRoot:Block.set_txs", "witness_altered_block",
+                    "last_repeated_same_root_block", *["badroot:" + c for c in BADROOT_CLASSES])
+        rec.require(*["cfg:%s:%s" % (spec["net"], c) for c in ("header", "block", "badroot")])
         run_blocks(spec, rec)
     elif kind == "merkle":
         rec.require("merkle")
         run_merkle(spec, rec)
     elif kind == "cve":
-        rec.require("proof:cve_duplicate")
+        rec.require("proof:cve_duplicate", "cve:both_copies_matched", "cve:first_copy_leaf_matched", "cve:second_copy_leaf_matched",
+                    "cve:pair_supplied_as_hashes", "cfg:BTC:proof_corrupted", "cfg:LTC:proof_corrupted")
         run_cve(spec, rec)
     elif kind == "history":
         rec.require("merkle", "merkle(hash_f=custom)", "merkle(hash_f=double_sha256)", "history:custom_then_bitcoin",
                     "history:bitcoin_then_custom", "Block.from_bin", "BadMerkleRoot:Block.from_bin", "BadMerkleRoot:other_hash_f_root",
                     "Block.set_txs", "Block.check_merkle_hash", "BadMerkleRoot:Block.check_merkle_hash", "Block.set_nonce", "Block.id",
-                    "proof:honest")
+                    "proof:honest", "Block.as_blockheader.id")
         run_history(spec, rec)
     elif kind == "proofs":
         rec.require("message.parse(merkleblock)", "proof:honest", "proof:hash_bit", "proof:hash_appended", "proof:hash_inserted",
-                    "proof:hash_removed", "proof:padding_bit", "proof:root_altered")
+                    "proof:hash_removed", "proof:padding_bit", "proof:root_altered", "proof:extra_flag_byte_set", "proof:honest_again",
+                    "cfg:BTC:proof_honest", "cfg:LTC:proof_honest", "cfg:BTC:proof_corrupted", "cfg:LTC:proof_corrupted",
+                    "tree:power_of_two", "tree:odd_leaf_count", "tree:two_or_more_odd_levels", "tree:odd_level_at_height_2_or_more",
+                    "subset:none", "subset:all", "subset:proper", "subset:matches_duplicated_right_edge")
         run_proofs(spec, rec)
     else:
         raise ValueError(kind)
 
 
 def replay_case(case, rec):
+    try:
+        _replay_case(case, rec)
+    except _AbortShard as e:
+        rec.note("replay ended early: %s" % e)
+
+
+def _replay_case(case, rec):
     kind = case["kind"]
     if kind == "header":
         judge_header(case["net"], case["data"], rec)
